@@ -33,6 +33,22 @@ MUTANTS = [
      "check_vouched_time: rejects representable local times above i64::MAX"),
     ("vouched_time", "vouched_time/src/lib.rs", "        ret.check_or_die();\n        Ok(ret)", "        Ok(ret)",
      "new: (harmless) -- control: dropping the redundant self-check must NOT be reported"),
+    ("arena_read", "owning_iovec/src/byte_arena/mod.rs", "                        // EOF: bail out with Ok(len).\n                        err = None;\n",
+     "                        // EOF: bail out with Ok(len).\n", "read_n_impl: an earlier Interrupted survives EOF (Err instead of Ok(0))"),
+    ("arena_read", "owning_iovec/src/byte_arena/mod.rs", "            (0, Some(e)) => Err(e),", "            (_, Some(e)) => Err(e),",
+     "read_n_impl: fails although bytes were delivered"),
+    ("arena_read", "owning_iovec/src/byte_arena/mod.rs", "            if got == slice.len() {\n                break;",
+     "            if got + 1 == slice.len() {\n                break;", "read_n_impl: stops one byte short of full"),
+    ("sorted_deque", "sliding_deque/src/sorted_deque.rs", "        } else if idx == len - 1 {\n            self.pop_last()",
+     "        } else if idx == len {\n            self.pop_last()", "remove: the last item is erased logically instead of popped"),
+    ("sorted_deque", "sliding_deque/src/sorted_deque.rs", "            if !self.marker.is_erased(back) {\n                break;",
+     "            if self.marker.is_erased(back) {\n                break;", "cleanup_back: pops live items, keeps erased ones"),
+    ("sorted_deque", "sliding_deque/src/sorted_deque.rs", "        if self.marker.is_erased(item) {\n            None\n        } else {\n            Some(item)",
+     "        if !self.marker.is_erased(item) {\n            None\n        } else {\n            Some(item)", "find: returns erased items, hides live ones"),
+    ("sorted_deque", "sliding_deque/src/sorted_deque.rs", "        let ret = self.items.pop_back()?;\n        self.cleanup_back();",
+     "        let ret = self.items.pop_back()?;", "pop_last: newly exposed erased items are not cleaned up"),
+    ("chunker", "hcobs/src/stream_reader.rs", "initial_length.saturating_add(io_block_size)", "initial_length.max(io_block_size)",
+     "pump: reads no further than the carried bytes when the block size is small (F1 again)"),
 ]
 
 
